@@ -659,7 +659,7 @@ def _run(case):
                             _bump(counters, "db_effects_allowed" if rp in sb.allowed_files else "effects_inside_storage")
                         continue
                     if not effect and rp not in diff:
-                        _bump(counters, "outside_attempts_without_effect")
+                        _bump(counters, "outside_attempts_without_effect|" + appkey)
                         observed.append("attempt %s %r (no effect)" % (ev["ev"], raw))
                         continue
                     if not sb.inside_base(rp) and pre is None and post is not None:
